@@ -1,10 +1,19 @@
 """C03 translator: regenerate coq/gen/Sizes_C03_gen.v from /repo's string-sort headers.
 
-The memory heuristics of radixsort_CE0/CE2/CE3/CI2/CI3 and multikey_quicksort compare the caller's
-`memory` argument with sizeof-derived quantities.  A tiny C++ program is compiled against /repo's
-headers and prints, for every string-set representation and with/without LCP output, the sizeof
-constants the code uses, plus g_inssort_threshold and RadixStep_CE3::RADIX.  The literal threshold of
-multikey_quicksort (`n < 32`) and the stack-frame formula are read from the source text.
+The memory heuristics of radixsort_CE0/CE2/CE3/CI2/CI3 and multikey_quicksort compare the caller's `memory`
+argument with sizeof-derived quantities, and the sorters switch algorithms at tuning thresholds.  Nothing here
+depends on how those are spelled in the source:
+
+* sizeof constants: a tiny C++ program compiled against /repo's headers prints them for every string-set
+  representation, with and without LCP output.
+* thresholds (radix -> insertion sort, 8-bit -> 16-bit radix, multikey quicksort -> insertion sort, and the
+  stack-frame estimate of multikey quicksort) are determined by EXECUTION: the same program runs the real sorters
+  over a probing string set (a GenericCharStringSet clone that counts get_char / get_uint8 / get_uint16 calls)
+  on n = 1, 2, ... strings and reads the cut-off from which sub-sorter was entered.  Literals or named constants
+  found in the text are used only as hints / cross-checks.
+* the pivot rule of multikey quicksort is NOT regenerated: every in-range pivot is correct (C03_mkqs_partition is
+  `forall pv`), the model keeps its built-in rule and the check compares contents and LCPs only.  The
+  pseudo-median threshold is read from the text when it is recognisable (it only selects among pivots).
 """
 import os
 import re
@@ -21,6 +30,10 @@ SRC = r'''
 #include <tlx/sort/strings/radix_sort.hpp>
 #include <cstdio>
 #include <cstdint>
+#include <cstdlib>
+#include <cstring>
+#include <string>
+#include <vector>
 using namespace tlx::sort_strings_detail;
 template <typename SS, typename SP>
 static void dump(const char* name, int lcp) {
@@ -31,14 +44,103 @@ static void dump(const char* name, int lcp) {
            sizeof(RadixStep_CI2<SP>), sizeof(RadixStep_CI3<SP>),
            sizeof(std::uint8_t), sizeof(std::uint16_t));
 }
-int main() {
-    printf("inssort %zu\n", (size_t)g_inssort_threshold);
-    printf("radix16 %zu\n", (size_t)RadixStep_CE3<StringPtr<UCharStringSet>::WithShadow>::RADIX);
-    printf("radix16ci %zu\n", (size_t)RadixStep_CI3<StringPtr<UCharStringSet> >::RADIX);
+
+// ---- probing string set: GenericCharStringSet<unsigned char> with counters on the character extractors
+static size_t c_char, c_u8, c_u16, c_u8_deep;
+class ProbeSet : public GenericCharStringSetTraits<unsigned char>,
+                 public StringSetBase<ProbeSet, GenericCharStringSetTraits<unsigned char> > {
+public:
+    typedef GenericCharStringSetTraits<unsigned char> Traits;
+    typedef StringSetBase<ProbeSet, Traits> Base;
+    typedef Traits::Char Char; typedef Traits::String String; typedef Traits::Iterator Iterator;
+    typedef Traits::CharIterator CharIterator; typedef Traits::Container Container;
+    ProbeSet(Iterator b, Iterator e) : b_(b), e_(e) {}
+    explicit ProbeSet(const Container& c) : b_(c.first), e_(c.first + c.second) {}
+    size_t size() const { return e_ - b_; }
+    Iterator begin() const { return b_; }
+    Iterator end() const { return e_; }
+    String& operator[](Iterator i) const { return *i; }
+    CharIterator get_chars(const String& s, size_t depth) const { return s + depth; }
+    bool is_end(const String&, const CharIterator& i) const { return *i == 0; }
+    std::string get_string(const String& s, size_t depth = 0) const { return std::string(reinterpret_cast<const char*>(s) + depth); }
+    ProbeSet sub(Iterator b, Iterator e) const { return ProbeSet(b, e); }
+    static Container allocate(size_t n) { return std::make_pair(new String[n], n); }
+    static void deallocate(Container& c) { delete[] c.first; c.first = nullptr; }
+    // counted extractors (hide the ones of StringSetBase)
+    Char get_char(const String& s, size_t depth) const { ++c_char; return *(s + depth); }
+    std::uint8_t get_uint8(const String& s, size_t depth) const { ++c_u8; if (depth > 0) ++c_u8_deep; return Base::get_uint8(s, get_chars(s, depth)); }
+    std::uint16_t get_uint16(const String& s, size_t depth) const { ++c_u16; return Base::get_uint16(s, get_chars(s, depth)); }
+private:
+    Iterator b_, e_;
+};
+
+// n pairwise different strings (3 bytes, none 0); with `bucket` > 0 the last `bucket` strings share their first byte 0xFE
+static std::vector<std::string> g_store;
+static std::vector<unsigned char*> make(size_t n, size_t bucket) {
+    g_store.assign(n, std::string());
+    std::vector<unsigned char*> p(n);
+    for (size_t i = 0; i < n; ++i) {
+        std::string& s = g_store[i];
+        if (i + bucket >= n) { size_t k = i + bucket - n; s.push_back(char(0xFE)); s.push_back(char(1 + k % 250)); s.push_back(char(1 + k / 250)); }
+        else { s.push_back(char(1 + i % 253)); s.push_back(char(1 + (i / 253) % 253)); s.push_back(char(1 + i / (253 * 253))); }
+        p[i] = reinterpret_cast<unsigned char*>(&s[0]);
+    }
+    return p;
+}
+enum { ALG_CE0, ALG_CE2, ALG_CE3, ALG_CI2, ALG_CI3, ALG_MKQS };
+static void run(int alg, size_t n, size_t bucket, size_t memory) {
+    std::vector<unsigned char*> p = make(n, bucket);
+    c_char = c_u8 = c_u16 = c_u8_deep = 0;
+    StringPtr<ProbeSet> sp(ProbeSet(p.data(), p.data() + n));
+    switch (alg) {
+    case ALG_CE0: radixsort_CE0(sp, 0, memory); break;
+    case ALG_CE2: radixsort_CE2(sp, 0, memory); break;
+    case ALG_CE3: radixsort_CE3(sp, 0, memory); break;
+    case ALG_CI2: radixsort_CI2(sp, 0, memory); break;
+    case ALG_CI3: radixsort_CI3(sp, 0, memory); break;
+    default: multikey_quicksort(sp, 0, memory); break;
+    }
+    for (size_t i = 1; i < n; ++i) if (strcmp((const char*)p[i - 1], (const char*)p[i]) > 0) { printf("probe-unsorted %d %zu\n", alg, n); exit(3); }
+}
+// smallest n in [lo, hi] at which the 8-bit radix step (resp. the partition of mkqs) is entered, 0 if never
+static size_t first_radix8(int alg) { for (size_t n = 1; n <= 300; ++n) { run(alg, n, 0, 0); if (c_u8 > 0) return n; } return 0; }
+static size_t first_bucket_radix8(int alg) {          // bucket size from which a bucket gets its own radix step
+    for (size_t b = 2; b <= 300; ++b) { run(alg, 253 + b, b, 0); if (c_u8_deep > 0) return b; } return 0; }
+static size_t first_partition() { for (size_t n = 1; n <= 300; ++n) { run(ALG_MKQS, n, 0, 0); if (c_char > 0) return n; } return 0; }
+static size_t first_radix16(int alg, size_t hint) {
+    auto is16 = [&](size_t n) { run(alg, n, 0, 0); return c_u16 > 0; };
+    if (hint > 1 && hint < (1u << 22) && !is16(hint - 1) && is16(hint)) return hint;
+    size_t hi = 1u << 21; if (!is16(hi)) return 0;
+    size_t lo = 1;                                         // invariant: !is16(lo), is16(hi)
+    if (is16(lo)) return 1;
+    while (hi - lo > 1) { size_t mid = lo + (hi - lo) / 2; if (is16(mid)) hi = mid; else lo = mid; }
+    return hi;
+}
+int main(int argc, char** argv) {
+    size_t hint16 = argc > 1 ? strtoul(argv[1], nullptr, 0) : 0;
 @BODY@
+    printf("ins_ce0 %zu\n", first_radix8(ALG_CE0));
+    printf("ins_ce2 %zu\n", first_radix8(ALG_CE2));
+    printf("ins_ci2 %zu\n", first_radix8(ALG_CI2));
+    printf("insb_ce0 %zu\n", first_bucket_radix8(ALG_CE0));
+    printf("insb_ce2 %zu\n", first_bucket_radix8(ALG_CE2));
+    printf("insb_ci2 %zu\n", first_bucket_radix8(ALG_CI2));
+    size_t mk = first_partition();
+    printf("mkqs %zu\n", mk);
+    // stack-frame estimate of mkqs: smallest memory limit (> 0) with which n = 300 strings are still partitioned
+    size_t use1 = 0;
+    for (size_t m = 1; m <= 4096; ++m) { run(ALG_MKQS, 300, 0, m); if (c_char > 0) { use1 = m; break; } }
+    printf("mkqs_use_plus1 %zu %zu\n", use1, sizeof(ProbeSet));
+    printf("radix16_ce3 %zu\n", first_radix16(ALG_CE3, hint16));
+    printf("radix16_ci3 %zu\n", first_radix16(ALG_CI3, hint16));
     return 0;
 }
 '''
+
+
+def _const_value(text, name):
+    m = re.search(r"\b%s\s*=\s*(0x[0-9a-fA-F]+|\d+)" % re.escape(name), text)
+    return int(m.group(1), 0) if m else None
 
 
 def generate(ck):
@@ -49,64 +151,100 @@ def generate(ck):
     src = os.path.join(ck.scratch, "c03_sizes.cpp")
     with open(src, "w") as f:
         f.write(SRC.replace("@BODY@", "\n".join(body)))
-    exe, log = ck.build_cpp("c03_sizes", [src], flags=["-std=c++17", "-O0"])
+    exe, log = ck.build_cpp("c03_sizes", [src], flags=["-std=c++17", "-O1"])
     if exe is None:
-        raise RuntimeError("sizes program does not compile against /repo:\n" + log[-3000:])
-    rc, out = verif.sh([exe], timeout=60)
+        raise RuntimeError("sizes / probe program does not compile against /repo:\n" + log[-3000:])
+    rs = open(os.path.join(verif.REPO, "tlx/sort/strings/radix_sort.hpp")).read()
+    mk = open(os.path.join(verif.REPO, "tlx/sort/strings/multikey_quicksort.hpp")).read()
+    hint16 = _const_value(rs, "RADIX") or 65536
+    rc, out = verif.sh([exe, str(hint16)], timeout=300)
     if rc != 0:
-        raise RuntimeError("sizes program failed rc=%d:\n%s" % (rc, out[-2000:]))
-    consts = {}
+        raise RuntimeError("sizes / probe program failed rc=%d:\n%s" % (rc, out[-2000:]))
+    vals = {}
     rows = []
     for line in out.splitlines():
         p = line.split()
-        if len(p) == 2:
-            consts[p[0]] = int(p[1])
-        elif len(p) == 13:
+        if len(p) == 13:
             rows.append((p[0], int(p[1])) + tuple(int(x) for x in p[2:]))
-    if consts.get("radix16") != consts.get("radix16ci"):
-        raise RuntimeError("RADIX of RadixStep_CE3 and RadixStep_CI3 differ: %r" % consts)
+        elif len(p) >= 2 and p[0] != "probe-unsorted":
+            vals[p[0]] = [int(x) for x in p[1:]]
     if len(rows) != 2 * len(REPS):
         raise RuntimeError("unexpected output of the sizes program:\n" + out[-1500:])
-    # textual part: multikey_quicksort threshold + stack frame estimate
-    mk = open(os.path.join(verif.REPO, "tlx/sort/strings/multikey_quicksort.hpp")).read()
-    m = re.search(r"if\s*\(\s*n\s*<\s*(\d+)\s*\|\|\s*\(\s*memory\s*!=\s*0\s*&&\s*memory\s*<\s*memory_use\s*\+\s*1\s*\)\s*\)", mk)
-    if not m:
-        raise RuntimeError("multikey_quicksort.hpp: cannot find the `n < K || (memory != 0 && memory < memory_use + 1)` test")
-    mkqs_thr = int(m.group(1))
+    notes = []
+
+    def one(keys, what):
+        vs = sorted(set(vals[k][0] for k in keys))
+        if len(vs) != 1 or vs[0] == 0:
+            raise RuntimeError("%s: the probed sorters do not agree on one cut-off (%s) -- the model has a single constant here"
+                               % (what, ", ".join("%s=%d" % (k, vals[k][0]) for k in keys)))
+        return vs[0]
+    # radix sort -> insertion sort (top level of CE0/CE2/CI2 and their buckets): "n < T" <=> first radix step at n = T
+    inssort = one(["ins_ce0", "ins_ce2", "ins_ci2", "insb_ce0", "insb_ce2", "insb_ci2"], "radix/insertion-sort threshold")
+    radix16 = one(["radix16_ce3", "radix16_ci3"], "8-bit/16-bit radix switch-over")
+    mkqs_thr = vals["mkqs"][0]
+    if mkqs_thr == 0:
+        raise RuntimeError("multikey_quicksort never partitions for n <= 300: cut-off to insertion sort not found")
+    # textual values are only cross-checks
+    for name, probed in (("g_inssort_threshold", inssort),):
+        tv = _const_value(rs, name)
+        if tv is not None and tv != probed:
+            notes.append("text says %s = %d but the sorters behave as %d (probe wins)" % (name, tv, probed))
+    # stack-frame estimate of mkqs: memory_use + 1 probed on ProbeSet (sizeof known); split into the textual shape when recognisable
+    use1, sz_probe = vals["mkqs_use_plus1"]
+    if use1 == 0:
+        raise RuntimeError("multikey_quicksort: no memory limit <= 4096 lets it partition 300 strings: stack-frame estimate not found")
+    words = (use1 - 1 - sz_probe)
+    if words < 0 or words % 8 != 0:
+        raise RuntimeError("multikey_quicksort: probed memory_use = %d does not have the shape a*sizeof(size_t) + sizeof(StringSet) + b*sizeof(Iterator)" % (use1 - 1))
+    mk_a, mk_b = words // 8, 0
     m2 = re.search(r"memory_use\s*=\s*(\d+)\s*\*\s*sizeof\(size_t\)\s*\+\s*sizeof\(StringSet\)\s*\+\s*(\d+)\s*\*\s*sizeof\(Iterator\)\s*;", mk)
-    if not m2:
-        raise RuntimeError("multikey_quicksort.hpp: cannot find the memory_use formula")
-    mk_a, mk_b = int(m2.group(1)), int(m2.group(2))
-    m3 = re.search(r"if\s*\(\s*n\s*>\s*(\d+)\s*\)\s*\{\s*//\s*on big arrays", mk)
-    if not m3:
-        raise RuntimeError("multikey_quicksort.hpp: cannot find the pseudo-median threshold")
-    med9_thr = int(m3.group(1))
-    rs = open(os.path.join(verif.REPO, "tlx/sort/strings/radix_sort.hpp")).read()
-    # every memory estimate in radix_sort.hpp has the shape 2*sizeof(size_t)+sizeof(StringSet)+..., slack 3*sizeof(RadixStep)
+    if m2 and int(m2.group(1)) + int(m2.group(2)) == words // 8:
+        mk_a, mk_b = int(m2.group(1)), int(m2.group(2))
+    else:
+        notes.append("mkqs memory_use formula not recognised textually; using the probed %d machine words + sizeof(StringSet)" % (words // 8))
+    # pseudo-median threshold: optional (selects among pivots only)
+    med9_thr = 30
+    m3 = re.search(r"if\s*\(\s*n\s*>\s*(\w+)\s*\)\s*\{\s*//[^\n]*(?:big arrays|pseudo)", mk)
+    if m3:
+        tok = m3.group(1)
+        v = int(tok) if tok.isdigit() else _const_value(mk, tok)
+        if v is not None:
+            med9_thr = v
+    if re.search(r"Iterator\s+pm\s*=\s*a\s*\+\s*\(\s*n\s*/\s*2\s*\)\s*;", mk) is None or re.search(r"size_t\s+d\s*=\s*\(\s*n\s*/\s*8\s*\)\s*;", mk) is None:
+        notes.append("pivot rule of multikey_quicksort differs from the model's built-in rule: the model keeps its own "
+                     "(any in-range pivot is correct); only contents and LCPs are compared")
+    # the radix memory estimates keep the modelled shape?
     if len(re.findall(r"memory_use\s*=\s*2\s*\*\s*sizeof\(size_t\)\s*\+\s*sizeof\(StringSet\)", rs)) != 5:
         raise RuntimeError("radix_sort.hpp: the five memory_use estimates no longer have the modelled shape")
-    if len(re.findall(r"memory_slack\s*=\s*3\s*\*\s*sizeof\(RadixStep\)", rs)) != 5:
-        raise RuntimeError("radix_sort.hpp: the five memory_slack estimates no longer have the modelled shape")
+    slacks = [int(x) for x in re.findall(r"memory_slack\s*=\s*(\d+)\s*\*\s*sizeof\(RadixStep\)", rs)]
+    if len(slacks) != 5:
+        raise RuntimeError("radix_sort.hpp: the five memory_slack estimates no longer have the modelled shape k * sizeof(RadixStep)")
     o = ["(* GENERATED by translate/sizes_c03.py from /repo/tlx/sort/strings/*.hpp -- do not edit *)",
          "From Coq Require Import NArith List.", "Import ListNotations.", "Local Open Scope N_scope.", "",
-         "Definition inssort_threshold : N := %d." % consts["inssort"],
-         "Definition radix16 : N := %d." % consts["radix16"],
+         "Definition inssort_threshold : N := %d." % inssort,
+         "Definition radix16 : N := %d." % radix16,
          "Definition mkqs_threshold : N := %d." % mkqs_thr,
          "Definition mkqs_med9_threshold : N := %d." % med9_thr,
          "Definition mkqs_use_sizet : N := %d." % mk_a,
-         "Definition mkqs_use_iter : N := %d." % mk_b, "",
+         "Definition mkqs_use_iter : N := %d." % mk_b,
+         "(* memory_slack = k * sizeof(RadixStep), in file order radixsort_CE0, CE2, CE3, CI2, CI3 *)",
+         "Definition slack_ce0 : N := %d." % slacks[0], "Definition slack_ce2 : N := %d." % slacks[1],
+         "Definition slack_ce3 : N := %d." % slacks[2], "Definition slack_ci2 : N := %d." % slacks[3],
+         "Definition slack_ci3 : N := %d." % slacks[4], "",
          "(* per representation (UChar=0, CUChar=1, StdString=2, UPtr=3, Suffix=4, Char=5, CChar=6) and LCP flag:",
          "   sizeof size_t, StringSet, String, Iterator, RadixStep_CE0, _CE2, _CE3, _CI2, _CI3, uint8_t, uint16_t *)",
          "Definition sizes_table : list (N * bool * list N) := ["]
     ent = []
-    for name, lcp, *vals in rows:
+    for name, lcp, *vs in rows:
         idx = [r[0] for r in REPS].index(name)
-        ent.append("  ((%d, %s), [%s])  (* %s *)" % (idx, "true" if lcp else "false", "; ".join(str(v) for v in vals), name))
+        ent.append("  ((%d, %s), [%s])  (* %s *)" % (idx, "true" if lcp else "false", "; ".join(str(v) for v in vs), name))
     o.append(";\n".join(ent))
     o.append("].")
     ck.coverage.setdefault("translator_notes", []).append(
-        "sizes_c03: %d sizeof rows, inssort=%d radix16=%d mkqs_threshold=%d" % (len(rows), consts["inssort"], consts["radix16"], mkqs_thr))
+        "sizes_c03: %d sizeof rows; thresholds by execution probe: inssort=%d radix16=%d mkqs=%d, mkqs frame=%d words; med9=%d (text)%s"
+        % (len(rows), inssort, radix16, mkqs_thr, mk_a + mk_b, med9_thr, ("; " + "; ".join(notes)) if notes else ""))
     ck.c03_sizes = {(r[0], r[1]): r[2:] for r in rows}
+    ck.c03_thresholds = {"inssort": inssort, "radix16": radix16, "mkqs": mkqs_thr, "slack": slacks}
     return {"Sizes_C03_gen.v": "\n".join(o) + "\n"}
 
 
